@@ -1017,6 +1017,9 @@ def short(path):
 # Symbolic description of operands (single-definition chains)
 # --------------------------------------------------------------------------------------------
 
+DESCRIBE_DEPTH = 100
+
+
 def describe(prog, body, x, depth=0, seen=None):
     """Symbolic value of an operand (dict) or local (int):
     ('lit', v) | ('variant', adt, name, [args]) | ('tuple', [..]) | ('array', [..]) |
@@ -1025,7 +1028,7 @@ def describe(prog, body, x, depth=0, seen=None):
     References, derefs, casts and copies are transparent."""
     if seen is None:
         seen = set()
-    if depth > 60:
+    if depth > DESCRIBE_DEPTH:
         return ("deep",)
     if isinstance(x, dict):
         k = x.get("k")
@@ -1109,12 +1112,12 @@ def _describe_local(prog, body, l, depth, seen):
     if len(ds) == 0:
         return ("local", l, body.local_name(l))
     if len(ds) > 1:
-        return ("multi", [_describe_def(prog, body, d, depth + 1, seen) for d in ds[:6]], body.local_name(l))
+        return ("multi", [_describe_def(prog, body, d, depth + 1, seen) for d in ds[:6]], body.local_name(l), l, tuple(d[0] for d in ds[:6]))
     return _describe_def(prog, body, ds[0], depth + 1, seen)
 
 
 def _describe_def(prog, body, d, depth, seen):
-    if depth > 60:
+    if depth > DESCRIBE_DEPTH:
         return ("deep",)
     b, i, kind, payload = d
     if kind == "call":
@@ -1180,6 +1183,21 @@ def desc_contains(desc, pred):
     return False
 
 
+def desc_subterms(desc):
+    """All tuple nodes of a description tree."""
+    out = []
+    stack = [desc]
+    while stack:
+        d = stack.pop()
+        if isinstance(d, tuple):
+            if d:
+                out.append(d)
+            stack.extend(x for x in d if isinstance(x, (tuple, list)))
+        elif isinstance(d, list):
+            stack.extend(d)
+    return out
+
+
 def desc_calls(desc):
     out = []
     stack = [desc]
@@ -1217,6 +1235,45 @@ def _flag_defs(body, l):
         if any(y in seen for y in blocks):
             return None
     return out
+
+
+def _short_circuit_def(body, l):
+    """For a bool local assigned constants on some paths and one computed value on another (`&&` / `||` lowering, early-return
+    predicates): (value that identifies the computed assignment, its block, describer) — True for an &&-chain (other defs are
+    `false`), False for an ||-chain (other defs are `true`).  None if the local has no such shape."""
+    if l is None or l <= body.argc or body.local_ty(l) != "bool":
+        return None
+    ds = body.defs().get(l, [])
+    if len(ds) < 2:
+        return None
+    consts, rest = [], []
+    for d in ds:
+        if d[2] == "assign" and not d[3]["pl"]["p"] and d[3]["rv"]["k"] == "use" and d[3]["rv"]["o"].get("k") == "const" and isinstance(d[3]["rv"]["o"].get("v"), bool):
+            consts.append(d)
+        elif d[2] == "call" or (d[2] == "assign" and not d[3]["pl"]["p"]):
+            rest.append(d)
+        else:
+            return None
+    if len(rest) != 1 or not consts:
+        return None
+    vals = set(d[3]["rv"]["o"]["v"] for d in consts)
+    if len(vals) != 1:
+        return None
+    blocks = [d[0] for d in ds]
+    for x in blocks:
+        seen = body.reachable(body.succs(x))
+        if any(y in seen for y in blocks):
+            return None
+    cv = vals.pop()
+    n = rest[0]
+
+    def describer(prog, n=n):
+        if n[2] == "call":
+            t = n[3]
+            return ("call", t.get("resolved") or t.get("callee") or "<indirect>", [describe(prog, body, a) for a in t["args"]], n[0])
+        rv = n[3]["rv"]
+        return describe_rv(prog, body, rv) if rv["k"] != "use" else describe(prog, body, rv["o"])
+    return (not cv, n[0], describer)
 
 
 def _flag_root(body, l):
@@ -1265,12 +1322,23 @@ def guards_dominating(prog, body, b, _depth=0):
                     if lab in ("true", "false") and _depth < 3:
                         fl, neg = _flag_root(body, op_local(t["discr"]))
                         fd = _flag_defs(body, fl)
+                        val = (lab == "true") != neg
                         if fd is not None:
-                            val = (lab == "true") != neg
                             if len(fd[val]) == 1:
                                 for g in guards_dominating(prog, body, fd[val][0], _depth + 1):
                                     if g not in out:
                                         out.append(g)
+                        else:
+                            # short-circuit chains: `a && b` is (b on the path where a held | false), `a || b` is (true | b where a failed).
+                            # true for an &&-chain / false for an ||-chain means the one non-constant assignment ran and had that value.
+                            sc = _short_circuit_def(body, fl)
+                            if sc is not None and sc[0] == val:
+                                nblk, ndesc = sc[1], sc[2](prog)
+                                for g in guards_dominating(prog, body, nblk, _depth + 1):
+                                    if g not in out:
+                                        out.append(g)
+                                pseudo = (nblk, "true" if val else "false", ndesc, {"kind": "bool", "edges": {}, "otherwise": None, "block": nblk, "pseudo": True, "src": None, "local": None})
+                                out.append(pseudo)
     return out
 
 
@@ -1327,6 +1395,21 @@ def describe_upvar(prog, closure_body, field):
                 if rv and rv.get("k") == "agg" and rv.get("def") == closure_body.path and field < len(rv["ops"]):
                     return describe(prog, host, rv["ops"][field])
     return ("upvar", field, None)
+
+
+def closure_site(prog, closure_body):
+    """(host body, block) where the closure value is constructed (the caller when its defining helper was inlined), or None."""
+    hosts = [prog.bodies[c] for c, cls in getattr(prog, "extra_closures", {}).items() if closure_body.path in cls and c in prog.bodies]
+    parent = prog.bodies.get(closure_body.parent)
+    if parent is not None:
+        hosts.append(parent)
+    for host in hosts:
+        for b, blk in enumerate(host.blocks):
+            for s in blk["stmts"]:
+                rv = s.get("rv")
+                if rv and rv.get("k") == "agg" and rv.get("def") == closure_body.path:
+                    return host, b
+    return None
 
 
 def resolve_upvars(prog, closure_body, desc):
